@@ -565,3 +565,65 @@ def check_paren_independence(ctx, rep, rule=RULE + '.d'):
             else:
                 rep.undecided(rule, f, w, 'guard of the parenthesisation not recognised')
     return n
+
+
+def check_line_delimiters(ctx, rep, rule=RULE + '.g'):
+    """a character at which the line reader cuts a line (split / partition / find with a literal argument) must not be a
+    character that a state name, a symbol or a transition label may contain; the comment test looks at the first word
+    only, and no state name may start with the comment character"""
+    f = ctx.prog.func('automaton_algorithms.AutomatonParser.parse_line')
+    patterns = {}
+    for g in ctx.prog.functions.values():
+        if g.parent is None and g.name.endswith('_regex') and not g.module.name.startswith('template:') and not g.pos_params:
+            p = _eval_regex_fn(g)
+            if p is not None:
+                patterns[g.short] = p
+    if len(patterns) < 5:
+        raise AnalysisError('fewer than 5 label regular expressions found')
+    n = 0
+    derived = {p for p in f.params if p != 'self'}
+    for _ in range(3):
+        for s in walk_no_nested(f.node):
+            if isinstance(s, ast.Assign) and len(s.targets) == 1 and isinstance(s.targets[0], ast.Name) and names_in(s.value) & derived:
+                derived.add(s.targets[0].id)
+    for c in walk_no_nested(f.node):
+        if not (isinstance(c, ast.Call) and isinstance(c.func, ast.Attribute)):
+            continue
+        if c.func.attr in ('split', 'rsplit', 'partition', 'rpartition', 'find', 'index', 'rfind') and c.args and isinstance(c.args[0], ast.Constant) and isinstance(c.args[0].value, str) \
+                and names_in(c.func.value) & derived and not isinstance(c.func.value, ast.Subscript):
+            d = c.args[0].value
+            if not d.strip():
+                continue
+            n += 1
+            bad = None
+            for where, p in sorted(patterns.items()):
+                try:
+                    ok, wit = relang.included(p, '[^{}]*'.format(re.escape(d[0])))
+                except Exception:
+                    continue
+                if not ok:
+                    bad = (where, p, wit)
+                    break
+            if bad:
+                rep.violates(rule, f, c, "the line reader cuts every line at '{}', but '{}' may occur inside a label: {} ({}) admits '{}' -- the rest of such a line is dropped, so text written by the printers is not read back".format(d, d, bad[1], bad[0], bad[2]))
+            else:
+                rep.holds(rule, f, c, "the delimiter '{}' cannot occur in any state name, symbol or label".format(d))
+        if c.func.attr == 'startswith' and c.args and isinstance(c.args[0], ast.Constant) and isinstance(c.args[0].value, str):
+            d = c.args[0].value
+            n += 1
+            first_word = isinstance(c.func.value, ast.Subscript) and isinstance(c.func.value.slice, ast.Constant) and c.func.value.slice.value == 0
+            if not first_word:
+                rep.undecided(rule, f, c, 'comment test not on the first word')
+                continue
+            bad = None
+            for where, p in sorted(patterns.items()):
+                if 'state' not in where:
+                    continue
+                ok, wit = relang.included(p, '[^{}].*|'.format(re.escape(d[0])))
+                if not ok:
+                    bad = (where, p, wit)
+            if bad:
+                rep.violates(rule, f, c, "a state name may start with the comment character '{}' ({} admits '{}')".format(d, bad[1], bad[2]))
+            else:
+                rep.holds(rule, f, c, "the comment test looks at the first word only, and no state name starts with '{}'".format(d))
+    return n
